@@ -33,6 +33,49 @@ def _spec_map():
     return sp, m
 
 
+UNIVERSE = range(0x10000)
+
+
+def test_set(t: ast.AST, p: str, ev) -> set:
+    """the set of 16-bit codes for which test `t` over parameter `p` holds; constants (literals, module-level
+    names, range / list / frozenset expressions) are evaluated statically"""
+    if isinstance(t, ast.BoolOp):
+        parts = [test_set(v, p, ev) for v in t.values]
+        out = parts[0]
+        for x in parts[1:]:
+            out = (out | x) if isinstance(t.op, ast.Or) else (out & x)
+        return out
+    if isinstance(t, ast.UnaryOp) and isinstance(t.op, ast.Not):
+        return set(UNIVERSE) - test_set(t.operand, p, ev)
+    if isinstance(t, ast.Compare):
+        operands = [t.left] + list(t.comparators)
+        vals = []
+        for o in operands:
+            if isinstance(o, ast.Name) and o.id == p:
+                vals.append(None)  # the code itself
+            else:
+                vals.append(ev.eval(o))
+        import operator as _op
+        fns = {ast.Eq: _op.eq, ast.NotEq: _op.ne, ast.Lt: _op.lt, ast.LtE: _op.le, ast.Gt: _op.gt, ast.GtE: _op.ge, ast.In: lambda a, b: a in b, ast.NotIn: lambda a, b: a not in b}
+        for o_ in t.ops:
+            if type(o_) not in fns:
+                raise AnalysisError(f"code_to_category: operator {type(o_).__name__} not modelled")
+        # membership in large containers: pre-convert to sets
+        vals = [set(v) if isinstance(v, (list, tuple, frozenset, range)) and not isinstance(v, range) else v for v in vals]
+        out = set()
+        for code in UNIVERSE:
+            xs = [code if v is None else v for v in vals]
+            ok = True
+            for i, o_ in enumerate(t.ops):
+                if not fns[type(o_)](xs[i], xs[i + 1]):
+                    ok = False
+                    break
+            if ok:
+                out.add(code)
+        return out
+    raise AnalysisError(f"code_to_category: test kind {type(t).__name__} not modelled: {norm(t)[:60]}")
+
+
 def extract_chain(repo: Repo, rep: Report):
     mod = repo.mod("status")
     fn = repo.func("status", "code_to_category")
@@ -48,18 +91,11 @@ def extract_chain(repo: Repo, rep: Report):
         if isinstance(st, ast.If):
             rep.need(not st.orelse and len(st.body) == 1 and isinstance(st.body[0], ast.Return), f"code_to_category: clause shape at line {st.lineno}")
             t = st.test
-            rep.need(isinstance(t, ast.Compare) and len(t.ops) == 1 and isinstance(t.left, ast.Name) and t.left.id == p, f"code_to_category: test shape at line {st.lineno}")
             try:
-                rhs = ev.eval(t.comparators[0])
+                member = test_set(t, p, ev)
                 cat = ev.eval(st.body[0].value)
             except Unknown as exc:
                 raise AnalysisError(f"code_to_category line {st.lineno}: {exc}")
-            if isinstance(t.ops[0], ast.Eq):
-                member = {rhs}
-            elif isinstance(t.ops[0], ast.In):
-                member = set(rhs)
-            else:
-                raise AnalysisError(f"code_to_category: operator at line {st.lineno}")
             clauses.append((member, cat, st))
         elif isinstance(st, ast.Return):
             default = ev.eval(st.value)
@@ -183,3 +219,25 @@ def run(repo: Repo, rep: Report, tier: str) -> None:
                 ok = isinstance(v, ast.Name) and v.id in tables
                 rep.check(ok, "finality-source", f"{m.name.replace('pynetdicom.', '')}.{qualname(node)}", node, "service class status table is not one of the verified tables of status.py", mod=m, node=node)
     rep.floor("statuses bindings", n_cls, 20)
+    _delegate_finality(repo, rep, tier)
+
+
+def _delegate_finality(repo, rep, tier):
+    """'The SCU ... decisions about whether a response is final follow that category': C24's
+    stop-at-final rule decides that the SCU loops wait for another response only after a response
+    proven Pending (plus the one documented exception, Repository Query 0xB001); its failures are
+    failures of this property."""
+    from . import c24
+
+    rep.rule("scu-finality", "the SCU response loops continue only after a Pending category (C24 stop-at-final)")
+    sub = Report("C24", tier, c24.LEVEL, "")
+    c24.run(repo, sub, tier)
+    n = sum(1 for o in sub.obligations if o["rule"] == "stop-at-final" and o["ok"])
+    rep.ok("scu-finality", f"{n} stop-at-final obligations (C24) hold", "")
+    for f in sub.failures:
+        if f["rule"] == "stop-at-final":
+            f2 = dict(f)
+            f2["rule"] = "scu-finality"
+            f2["detail"] = f["detail"] + " - the decision that a response is not final no longer follows its status category"
+            rep.obligations.append(f2)
+            rep.failures.append(f2)
